@@ -10,9 +10,22 @@ use std::collections::{BTreeMap, BTreeSet, HashSet};
 use std::fmt::Write as _;
 use std::path::{Path, PathBuf};
 
-pub const NAMES: [&str; 14] =
-    ["a", "A", "a_", "b", "B", "public.default", "fore", "con", "A_", ".a", "aa", "é", "", "a\u{1}"];
-const NVALID: usize = 12;
+pub const NAMES: [&str; 28] = [
+    "a", "A", "a_", "b", "B", "public.default", "fore", "con", "A_", ".a", "aa", "é", "", "a\u{1}",
+    // non-ASCII cased letters whose lower-casing matters, in case-variant pairs: the second of
+    // each pair is what the first one's file name lower-cases to
+    "Äb", "ä_b", "Ä", "ä_", "É", "é_", "İ", "i\u{307}_", "\u{212A}", "k_", "ẞ", "ß_", "\u{2126}", "ω_",
+];
+/// indices of the valid names (12 and 13 are the invalid ones)
+fn valid_index(k: usize) -> usize {
+    if k < 12 {
+        k
+    } else {
+        k + 2
+    }
+}
+const NVALID: usize = 26;
+const UNI: [usize; 14] = [14, 15, 16, 17, 18, 19, 20, 21, 22, 23, 24, 25, 26, 27];
 const PD: usize = 5;
 
 fn ic(i: usize) -> char {
@@ -829,13 +842,70 @@ fn mixed_alphabet() -> Vec<Op> {
     v
 }
 
+/// glyph-level operations with non-ASCII cased names (file names that differ only by case
+/// under full Unicode lower-casing)
+fn glyph_alphabet_unicode() -> Vec<Op> {
+    let l = PD;
+    let mut v = vec![
+        InsertGlyph(l, 14),
+        InsertGlyph(l, 15),
+        InsertGlyph(l, 16),
+        InsertGlyph(l, 17),
+        InsertGlyph(l, 20),
+        InsertGlyph(l, 21),
+        InsertGlyph(l, 22),
+        InsertGlyph(l, 23),
+        InsertGlyph(l, 24),
+        InsertGlyph(l, 25),
+        RemoveGlyph(l, 14),
+        RemoveGlyph(l, 16),
+        RenameGlyph(l, 14, 15, false),
+        RenameGlyph(l, 14, 15, true),
+        RenameGlyph(l, 15, 14, true),
+        RenameGlyph(l, 16, 21, false),
+        ClearLayer(l),
+        RetainGlyphs(l, UNI.to_vec()),
+        RetainGlyphs(l, vec![15, 17, 20]),
+        RetainGlyphs(l, vec![]),
+        SaveLoad,
+    ];
+    v.push(InsertGlyph(l, 19));
+    v
+}
+fn layer_alphabet_unicode() -> Vec<Op> {
+    vec![
+        NewLayer(14),
+        NewLayer(15),
+        NewLayer(16),
+        NewLayer(17),
+        NewLayer(20),
+        NewLayer(21),
+        NewLayer(22),
+        NewLayer(23),
+        NewLayer(26),
+        NewLayer(27),
+        RemoveLayer(14),
+        RemoveLayer(16),
+        RenameLayer(14, 15, false),
+        RenameLayer(14, 15, true),
+        RenameLayer(16, 17, true),
+        RenameLayer(17, 16, true),
+        RenameLayer(PD, 20, false),
+        RetainLayers(UNI.to_vec()),
+        RetainLayers(vec![15, 17]),
+        RemoveEmptyLayers,
+        InsertGlyph(14, 16),
+        SaveLoad,
+    ]
+}
+
 fn random_op(rng: &mut Rng) -> Op {
-    let layer_pool = [PD, PD, PD, 6, 0, 1, 2, 3, 8];
+    let layer_pool = [PD, PD, PD, PD, 6, 0, 1, 2, 3, 8, 14, 16];
     let l = *rng.pick(&layer_pool);
-    let vname = |rng: &mut Rng| rng.below(NVALID as u64) as usize;
-    let any = |rng: &mut Rng| if rng.chance(1, 12) { 12 + rng.below(2) as usize } else { rng.below(NVALID as u64) as usize };
-    let few = |rng: &mut Rng| [0usize, 1, 2, 8, 3][rng.below(5) as usize];
-    let keep = |rng: &mut Rng| (0..NVALID).filter(|_| rng.chance(1, 2)).collect::<Vec<_>>();
+    let vname = |rng: &mut Rng| valid_index(rng.below(NVALID as u64) as usize);
+    let any = |rng: &mut Rng| if rng.chance(1, 12) { 12 + rng.below(2) as usize } else { valid_index(rng.below(NVALID as u64) as usize) };
+    let few = |rng: &mut Rng| if rng.chance(1, 3) { [14usize, 15, 16, 17, 20, 21, 22, 23][rng.below(8) as usize] } else { [0usize, 1, 2, 8, 3][rng.below(5) as usize] };
+    let keep = |rng: &mut Rng| (0..NVALID).map(valid_index).filter(|_| rng.chance(1, 2)).collect::<Vec<_>>();
     match rng.below(100) {
         0..=24 => InsertGlyph(l, if rng.chance(2, 3) { few(rng) } else { vname(rng) }),
         25..=32 => RemoveGlyph(l, few(rng)),
@@ -877,13 +947,15 @@ pub fn main(a: &Args) {
         TrieSpec { id: "L".to_string(), start: 0, alphabet: layer_alphabet_small(), depth: deep, split: 2 },
         TrieSpec { id: "Gw".to_string(), start: 0, alphabet: glyph_alphabet_wide(), depth: 3, split: 1 },
         TrieSpec { id: "Lw".to_string(), start: 0, alphabet: layer_alphabet_wide(), depth: 3, split: 1 },
+        TrieSpec { id: "Gu".to_string(), start: 0, alphabet: glyph_alphabet_unicode(), depth: 3, split: 1 },
+        TrieSpec { id: "Lu".to_string(), start: 0, alphabet: layer_alphabet_unicode(), depth: 3, split: 1 },
     ];
     for s in 0..STARTS.len() {
         specs.push(TrieSpec { id: format!("M{}", s), start: s, alphabet: mixed_alphabet(), depth: if s < NLOAD { 2 } else { 1 }, split: if s < NLOAD { 1 } else { 0 } });
     }
     if light {
         // C07's container part: well-formed starts, no raw entry access (those belong to C06)
-        specs.retain(|s| s.id == "M0" || s.id == "M2" || s.id == "M4" || s.id == "M5");
+        specs.retain(|s| s.id == "M0" || s.id == "M2" || s.id == "M4" || s.id == "M5" || s.id == "Gu");
         for s in specs.iter_mut() {
             s.alphabet.retain(|o| !matches!(o, EntryOrInsert(..) | EntryRemove(..)));
         }
